@@ -81,6 +81,9 @@ def classify(spec):
 # discrete_SIR with lazily enumerated rules
 # ------------------------------------------------------------------------------------------
 
+XARGS = ("xa", 5)
+
+
 def run_rules(spec, props=("C12",)):
     EoN, sim = import_eon()
     A = Acc()
@@ -117,6 +120,12 @@ def run_rules(spec, props=("C12",)):
         kw = dict(initial_infecteds=list(I0), tmin=tmin, tmax=tmax, return_full_data=full_)
         if R0:
             kw["initial_recovereds"] = list(R0)
+        bad = orc.ctx.setdefault("badargs", [])
+
+        def tt_a(u, v, xa, xb):
+            if (xa, xb) != XARGS:
+                bad.append(("test_transmission", (xa, xb), XARGS))
+            return tt(u, v)
         if keep:
             # the step counter advances once the recovery rule has been asked for every node that is
             # infectious in the current step (recomputed by the harness from the tables asked so far)
@@ -127,7 +136,11 @@ def run_rules(spec, props=("C12",)):
                 if st is not None and cur[1] >= {x for x, s in st.items() if s == "I"}:
                     cur[0] += 1; cur[1] = set()
                 return a
+            if spec.get("xargs"):
+                return EoN.discrete_SIR(G, test_transmission=tt_a, args=XARGS, test_recovery=tr3, **kw)
             return EoN.discrete_SIR(G, test_transmission=tt, test_recovery=tr3, **kw)
+        if spec.get("xargs"):
+            return EoN.discrete_SIR(G, test_transmission=tt_a, args=XARGS, **kw)
         return EoN.discrete_SIR(G, test_transmission=tt, **kw)
 
     before = mon.snap(G)
@@ -147,6 +160,9 @@ def run_rules(spec, props=("C12",)):
                     A.add(V(p, fn, cls, "exception", "discrete_SIR raised %r" % (r.exc,), pre))
             continue
         T = r.ctx.get("T", {}); Rc = r.ctx.get("Rc", {})
+        if r.ctx.get("badargs") and "C12" in props:
+            w, got, want = r.ctx["badargs"][0]
+            A.add(V("C12", fn, cls, "callback_args", "%s received the extra arguments %r, the caller supplied %r" % (w, got, want), pre))
         if keep:
             seq, contacts, missing = step_ref(G, I0, R0, tmin, tmax, lambda u, v, s: T.get((u, v, s)), lambda u, s: Rc.get((u, s)), True)
         else:
@@ -494,6 +510,11 @@ def specs(tier):
                     for full in (False, True):
                         out.append(dict(kind="rules", fn="discrete_SIR", n=n, edges=es, I0=list(I0), R0=list(R0), tmin=0,
                                         tmax=4, full=full, test_recovery=True, refusals=2))
+                        if not R0:
+                            out.append(dict(kind="rules", fn="discrete_SIR", n=n, edges=es, I0=list(I0), R0=[], tmin=0,
+                                            tmax=4, full=full, test_recovery=True, refusals=2, xargs=True))
+                            out.append(dict(kind="rules", fn="discrete_SIR", n=n, edges=es, I0=list(I0), R0=[], tmin=0,
+                                            tmax="inf", full=full, xargs=True))
         # probabilistic wrappers
         for fn in ("basic_discrete_SIR", "percolation_based_discrete_SIR", "basic_discrete_SIS"):
             sis = fn.endswith("SIS")
